@@ -197,7 +197,24 @@ def check_awaiters(ctx, fx):
             if any(x.kind == "arg" for x in o) and "Shared<futures_channel::oneshot::Receiver<()>>" in (t["argtys"][0]):
                 # and the result reaches the return place
                 sk = sinks(b, t["dest"][0])
-                ok = any(s["k"] == "ret" for s in sk) or any(s["k"] == "call" and (s["t"].get("callee") or "").endswith("::map") for s in sk)
+                maps = [s for s in sk if s["k"] == "call" and (s["t"].get("callee") or "").endswith("::map")]
+                ok = any(s["k"] == "ret" for s in sk) or bool(maps)
+                # the mapping closure must pass the poll result on (only converting the error)
+                for ms in maps:
+                    for o in b.origins(ms["t"]["args"][1]):
+                        if o.kind == "agg":
+                            cdef = b.blocks[o.site[0]]["s"][o.site[1]]["r"].get("def")
+                            c = fx.fn(cdef)
+                            if c:
+                                from props.c15 import roots as _roots
+                                cb = ctx.body(fx, c)
+                                rr = _roots(cb, {"k": "move", "p": [0]})
+                                through = all(r.kind == "arg" or r.kind.endswith("::map_err") for r in rr)
+                                for r in rr:
+                                    if r.kind.endswith("::map_err"):
+                                        ct = cb.blocks[r.site[0]]["t"]
+                                        through = through and all(x.kind == "arg" for x in _roots(cb, ct["args"][0]))
+                                ok = ok and through and bool(rr)
                 det = {"polls": t["callee"], "on": t["argtys"][0][:80]}
         ctx.require(ok and len(polls) == 1, "R04.4", "Addr::poll", "awaiting an address must return the poll of its shared termination future", fn=pf["def"], site=pf["loc"], detail=det)
     A = nfa.Alphabet(
